@@ -109,6 +109,14 @@ let map_step op a vs =
   | "xor" -> vp (map_xor (v 0) (v 1))
   | "filter" -> vp (map_filter_mod (x 1) (v 0))
   | "copy" -> vp (v 0)
+  | "rlt" -> vp (map_range_lt (x 1) (v 0))
+  | "rle" -> vp (map_range_le (x 1) (v 0))
+  | "rgt" -> vp (map_range_gt (x 1) (v 0))
+  | "rge" -> vp (map_range_ge (x 1) (v 0))
+  (* mapping-catenate (range< m x) x val (range> m x) = the mapping with x set to val *)
+  | "cat" -> vp (map_set (x 1) (x 2) (v 0))
+  (* mapping-catenate of the part of v0 below x and the part of v1 above x around the pivot x *)
+  | "cat2" -> vp (map_set (x 2) (x 3) (map_range_lt (x 2) (v 0) @ map_range_gt (x 2) (v 1)))
   | "ref" -> Q (match map_ref (x 1) (v 0) with Some r -> s_int r | None -> "-")
   | "has" -> Q (bs (map_has (x 1) (v 0)))
   | "size" -> Q (string_of_int (len (v 0)))
@@ -138,6 +146,7 @@ let seq_step fam op a vs =
   | ("ra" | "l1"), "cons" -> vl (x 1 :: v 0)
   | "ra", "cdr" -> vl (seq_remove_front (v 0))
   | "ra", "set" -> if v 0 = [] then vl [] else vl (seq_set (ni (idx 1)) (x 2) (v 0))
+  | "ra", "refupd" -> if v 0 = [] then vl [] else vl (seq_set (ni (idx 1)) (nth (seq_map1 (v 0)) (idx 1)) (v 0))
   | "ra", "tail" -> vl (seq_drop (ni (pos 1)) (v 0))
   | "ra", "car" -> guard (fun () -> qi (List.hd (v 0)))
   | ("ra" | "deque"), "ref" -> guard (fun () -> qi (nth (v 0) (idx 1)))
@@ -191,7 +200,7 @@ let parse_op tok =
 
 let run_hist fam toks =
   let prog = List.map parse_op toks in
-  let empty = match fam with "bag" | "map" | "hmap" -> P [] | "isett" -> T make_iset0 | _ -> L [] in
+  let empty = match fam with "bag" | "map" | "hmap" | "omap" -> P [] | "isett" -> T make_iset0 | _ -> L [] in
   let vs = Array.make (List.length prog + 1) empty in
   let n = ref 1 in
   let buf = Buffer.create 1024 in
@@ -199,7 +208,7 @@ let run_hist fam toks =
     | "set" | "iset" -> set_step
     | "isett" -> isett_step
     | "bag" -> bag_step
-    | "map" | "hmap" -> map_step
+    | "map" | "hmap" | "omap" -> map_step
     | "ra" | "deque" | "l1" | "v133" -> seq_step fam
     | _ -> failwith ("unknown family " ^ fam) in
   List.iter (fun (op, a) ->
